@@ -5,6 +5,7 @@ import (
 	"errors"
 	"fmt"
 	"sort"
+	"sync"
 
 	"github.com/beevik/etree"
 	sdcpb "github.com/sdcio/sdc-protos/sdcpb"
@@ -186,6 +187,8 @@ type Device struct {
 	SyncFn func(ctx context.Context, cfg *config.Sync, ch chan *target.SyncUpdate)
 	seq    *int
 	logf   func(string, ...any)
+	// mu serialises Set calls (free-running legs may reach the device from several goroutines)
+	mu sync.Mutex
 }
 
 func NewDevice(si *SchemaInfo, logf func(string, ...any)) *Device {
@@ -210,6 +213,8 @@ func (d *Device) decodeUpdates(upds []*sdcpb.Update) ([]*Leaf, error) {
 }
 
 func (d *Device) Set(ctx context.Context, source target.TargetSource) (*sdcpb.SetDataResponse, error) {
+	d.mu.Lock()
+	defer d.mu.Unlock()
 	idx := len(d.Sets)
 	if d.Hook != nil {
 		if err := d.Hook(idx); err != nil {
